@@ -2,7 +2,10 @@ package checks
 
 import (
 	"bytes"
+	"crypto/ecdsa"
+	"crypto/elliptic"
 	"crypto/rand"
+	"crypto/sha256"
 	"crypto/x509"
 	"fmt"
 	"math/big"
@@ -31,7 +34,9 @@ type c01Case struct {
 	SigAlg    string `json:"sigAlg,omitempty"`
 	Tier3     bool   `json:"tier3,omitempty"`
 	// origin
-	Origin string `json:"origin,omitempty"`
+	Origin     string `json:"origin,omitempty"`
+	Compressed bool   `json:"compressed,omitempty"` // foreign issuer certificate stores its EC point compressed
+	Fixture    string `json:"fixture,omitempty"`    // foreign issuer key ("" = P-256-0)
 	// history: a settled 3-tier chain, one operation on entity Ent, then a default run
 	Op  int `json:"op,omitempty"`
 	Ent int `json:"ent,omitempty"`
@@ -124,6 +129,14 @@ func c01Enumerate(tier string, yield func(any)) {
 	for _, o := range c01Origins {
 		for _, prof := range []bool{false, true} {
 			yield(&c01Case{Kind: "origin", Origin: o, Profile: prof})
+			if o != "gopki-earlier-run" {
+				yield(&c01Case{Kind: "origin", Origin: o, Profile: prof, Compressed: true})
+			}
+		}
+	}
+	for _, fx := range []string{"P-224-0", "P-384-0", "P-521-0"} {
+		for _, prof := range []bool{false, true} {
+			yield(&c01Case{Kind: "origin", Origin: "stdlib-printable", Profile: prof, Compressed: true, Fixture: fx})
 		}
 	}
 }
@@ -424,6 +437,66 @@ func c01ForeignDN(origin string) (der []byte, subject string) {
 	return nil, ""
 }
 
+// foreignIssuerPEM is a CA artifact made by another tool (crypto/x509): a
+// self-signed certificate with the DN of the given origin over a fixture key,
+// followed by that key. compressed stores the EC point in compressed form.
+func foreignIssuerPEM(origin, fixture string, compressed bool) (pemBytes []byte, subject string, err error) {
+	dn, subj := c01ForeignDN(origin)
+	keyDER := FixtureKeyDER(fixture)
+	signer, err := x509.ParsePKCS8PrivateKey(keyDER)
+	if err != nil {
+		return nil, "", err
+	}
+	tmpl := &x509.Certificate{SerialNumber: big.NewInt(4711), RawSubject: dn, NotBefore: fixedTime(2020), NotAfter: fixedTime(2040),
+		IsCA: true, BasicConstraintsValid: true, KeyUsage: x509.KeyUsageCertSign}
+	certDER, err := x509.CreateCertificate(rand.Reader, tmpl, tmpl, signerPublic(signer), signer)
+	if err != nil {
+		return nil, "", err
+	}
+	if compressed {
+		ek, ok := signer.(*ecdsa.PrivateKey)
+		if !ok {
+			return nil, "", fmt.Errorf("compressed points need an EC fixture")
+		}
+		certDER, err = compressedPointCert(dn, ek)
+		if err != nil {
+			return nil, "", err
+		}
+	}
+	return append(refx509.EncodePem("CERTIFICATE", certDER), refx509.EncodePem("PRIVATE KEY", keyDER)...), subj, nil
+}
+
+// compressedPointCert is a self-signed v3 CA certificate (ecdsa-with-SHA256)
+// whose subjectPublicKey carries the point in compressed form (SEC1 2.3.3),
+// which RFC 5480 allows and other tools emit.
+func compressedPointCert(dn []byte, k *ecdsa.PrivateKey) ([]byte, error) {
+	curveOID := map[string]string{"P-224": "1.3.132.0.33", "P-256": "1.2.840.10045.3.1.7", "P-384": "1.3.132.0.34", "P-521": "1.3.132.0.35"}[k.Curve.Params().Name]
+	if curveOID == "" {
+		return nil, fmt.Errorf("no curve oid for %s", k.Curve.Params().Name)
+	}
+	pt := elliptic.MarshalCompressed(k.Curve, k.X, k.Y)
+	alg := refder.Seq(refder.MustOID("1.2.840.10045.4.3.2"))
+	utc := func(y int) []byte {
+		return refder.Enc(0, refder.TagUTCTime, false, []byte(fmt.Sprintf("%02d0101000000Z", y%100)))
+	}
+	bc := refder.Seq(refder.MustOID("2.5.29.19"), refder.EncBool(true), refder.EncOctets(refder.Seq(refder.EncBool(true))))
+	tbs := refder.Seq(
+		refder.Explicit(0, refder.EncInt64(2)),
+		refder.EncInt64(4712),
+		alg, dn,
+		refder.Seq(utc(2020), utc(2040)),
+		dn,
+		refder.Seq(refder.Seq(refder.MustOID("1.2.840.10045.2.1"), refder.MustOID(curveOID)), refder.EncBitString(pt, 0)),
+		refder.Explicit(3, refder.Seq(bc)),
+	)
+	h := sha256.Sum256(tbs)
+	sig, err := ecdsa.SignASN1(rand.Reader, k, h[:])
+	if err != nil {
+		return nil, err
+	}
+	return refder.Seq(tbs, alg, refder.EncBitString(sig, 0)), nil
+}
+
 func c01Origin(x *engine.Ctx, c *c01Case) {
 	d := &Dir{}
 	prof := ""
@@ -433,7 +506,7 @@ func c01Origin(x *engine.Ctx, c *c01Case) {
 	}
 	ca := &refcfg.CertCfg{Path: "ca.yaml", Subject: "CN=Imported CA", KeyAlg: "P-256"}
 	child := &refcfg.CertCfg{Path: "child.yaml", Subject: "CN=Child", KeyAlg: "P-256", Issuer: "ca", Profile: prof}
-	x.Nontrivial("origin " + c.Origin + fmt.Sprint(c.Profile))
+	x.Nontrivial("origin " + c.Origin + fmt.Sprint(c.Profile, c.Compressed, c.Fixture))
 	var g *GenResult
 	if c.Origin == "gopki-earlier-run" {
 		ca.Profile = prof
@@ -450,25 +523,20 @@ func c01Origin(x *engine.Ctx, c *c01Case) {
 		g.Res = drive.Run(w, drive.Default, nil)
 		g.RunStart, g.RunEnd = g1.RunStart, g1.RunEnd+2
 	} else {
-		dn, subj := c01ForeignDN(c.Origin)
-		ca.Subject = subj
-		keyDER := FixtureKeyDER("P-256-0")
-		signer, err := x509.ParsePKCS8PrivateKey(keyDER)
-		if err != nil {
-			x.Cap("fixture: " + err.Error())
-			return
+		fx := c.Fixture
+		if fx == "" {
+			fx = "P-256-0"
 		}
-		type pub interface{ Public() any }
-		tmpl := &x509.Certificate{SerialNumber: big.NewInt(4711), RawSubject: dn, NotBefore: fixedTime(2020), NotAfter: fixedTime(2040),
-			IsCA: true, BasicConstraintsValid: true, KeyUsage: x509.KeyUsageCertSign}
-		certDER, err := x509.CreateCertificate(rand.Reader, tmpl, tmpl, signerPublic(signer), signer)
+		ca.KeyAlg = strings.TrimSuffix(fx, "-0")
+		caPem, subj, err := foreignIssuerPEM(c.Origin, fx, c.Compressed)
 		if err != nil {
 			x.Cap("cannot create foreign issuer: " + err.Error())
 			return
 		}
+		ca.Subject = subj
 		d.Certs = []*refcfg.CertCfg{ca, child}
 		g = Generate(d, func(w *simfs.World) {
-			w.Put("ca.pem", append(refx509.EncodePem("CERTIFICATE", certDER), refx509.EncodePem("PRIVATE KEY", keyDER)...))
+			w.Put("ca.pem", caPem)
 		}, drive.Default)
 	}
 	if g.Res.Panic != "" {
